@@ -1,4 +1,5 @@
 import CatiiProofs.StatsProofs
+import CatiiProofs.WQuantile
 /-!
 # C18 — array-cube-only statistics equal the per-cell textbook statistic
 
@@ -14,11 +15,14 @@ What the array cube *adds* to NumPy for these statistics is the selection of the
   require two valid rows.
 * `weighted_quantile_scale_invariant`: the weighted quantile model is unchanged when all weights are
   multiplied by a positive factor.
+* `weighted_quantile_within_range`: for every probability in [0, 1] and positive weights the weighted quantile of a
+  cell lies between the smallest and the largest of the cell's valid values (`WQuantile.wqCore_in_range`: the
+  `cumsum` / `digitize` / `clip` / `diff(append=[0])` arithmetic of `weighted_quantile_1d`, case by case).
 
 **Partial**: NumPy's own `quantile/cov/corrcoef/std`, square roots and float rounding are
 parameters, not theorems; the variance and weighted-quantile models are tied to the code by
-correspondence on the rows of each cell (tolerance 1e-9); "within [min, max]" for the weighted
-quantile is checked by the oracle on the real code only.
+correspondence on the rows of each cell (tolerance 1e-9).  Weights are positive throughout (the harness draws them
+so; a zero weight on the largest value makes the real code divide 0 by 0 at probability 1 — outside the quantifier).
 -/
 namespace Catii.C18
 open Catii.Cube Catii.Marg Catii.Agg Catii.Stats
@@ -42,10 +46,28 @@ theorem weighted_quantile_scale_invariant (p k : Rat) (hk : 0 < k) (xs : List (R
     wquantile p (xs.map fun x => (x.1, k * x.2)) = wquantile p xs :=
   wquantile_scale p k hk xs
 
+/-- the weighted quantile is within [min, max] of the cell's valid values (rows sorted by value, as the code sorts
+them; positive weights; any probability in [0, 1]) -/
+theorem weighted_quantile_within_range (p : Rat) (hp0 : 0 ≤ p) (hp1 : p ≤ 1) (xs : List (Rat × Rat))
+    (hs : (xs.map (·.1)).Pairwise (· ≤ ·)) (hw : ∀ x ∈ xs, 0 < x.2) (q : Rat) (hq : wquantile p xs = some q) :
+    (∀ x ∈ xs, (xs.map (·.1)).getD 0 0 ≤ x.1 ∧ x.1 ≤ (xs.map (·.1)).getD (xs.length - 1) 0) ∧
+    (xs.map (·.1)).getD 0 0 ≤ q ∧ q ≤ (xs.map (·.1)).getD (xs.length - 1) 0 :=
+  wquantile_in_range p hp0 hp1 xs hs hw q hq
+
 /-- no valid row ⇒ the weighted quantile is missing -/
 theorem weighted_quantile_empty (p : Rat) : wquantile p [] = none := rfl
 
 /-! Non-vacuity -/
 example : stddevMissing false 1 0 = true ∧ stddevMissing true 2 3 = false ∧ stddevMissing false 2 1 = true := by decide
+example : (∃ q, wquantile (1/2) [((1 : Rat), (1 : Rat)), (2, 2), (5, 1)] = some q) ∧
+    (([((1 : Rat), (1 : Rat)), (2, 2), (5, 1)] : List (Rat × Rat)).map (·.1)).Pairwise (· ≤ ·) ∧
+    ∀ x ∈ ([((1 : Rat), (1 : Rat)), (2, 2), (5, 1)] : List (Rat × Rat)), 0 < x.2 := by
+  refine ⟨⟨_, rfl⟩, ?_, ?_⟩
+  · simp only [List.map_cons, List.map_nil, List.pairwise_cons, List.mem_cons, List.not_mem_nil, or_false,
+      forall_eq_or_imp, forall_eq, IsEmpty.forall_iff, implies_true, List.Pairwise.nil, and_true]
+    refine ⟨⟨?_, ?_⟩, ?_⟩ <;> linarith
+  · intro x hx
+    simp only [List.mem_cons, List.not_mem_nil, or_false] at hx
+    rcases hx with rfl | rfl | rfl <;> simp
 
 end Catii.C18
